@@ -3,15 +3,21 @@
 Everything is decided from the fact base; no libosmium code is run.  Instances are keyed by what the property REQUIRES
 (the function / constructor / constant), so a deleted construct is a violated instance.
 
- K1-tile-result-clamped    every return of mercx_to_tilex / mercy_to_tiley is  static_cast<uint32_t>(detail::clamp(v, 0, num_tiles_in_zoom(zoom) - 1))
-        (value origin followed through casts and single-definition locals): lower bound is the constant 0, upper bound is
-        num_tiles_in_zoom(<the zoom parameter>) minus the constant 1; v is the scaled offset
+ K1-tile-result-clamped    mercx_to_tilex / mercy_to_tiley (and the helpers they call): exactly one scaled offset
         (x + max_coordinate) / tile_extent_in_zoom(zoom)  resp.  (max_coordinate - y) / tile_extent_in_zoom(zoom)  -- tiles are
-        numbered left to right and top to bottom -- of the coordinate parameter and the same zoom; num_tiles_in_zoom is
-        1 << zoom and tile_extent_in_zoom is (2 * max_coordinate) / num_tiles_in_zoom(zoom).
- K2-clamp-correct          detail::clamp is comparison-only (proved by the ORDERTYPE compiler) and, for every one of the 13
-        order types of (value, min, max), i.e. for all 2^96 argument triples with min <= max:  min <= r <= max, and
-        r == value whenever min <= value <= max.
+        numbered left to right and top to bottom -- of the coordinate parameter and the zoom parameter; the tile range comes from
+        num_tiles_in_zoom(<the zoom parameter>); num_tiles_in_zoom is 1 << zoom and tile_extent_in_zoom is
+        (2 * max_coordinate) / num_tiles_in_zoom(zoom).
+ K2-clamp-correct          the returned tile number is clamp(trunc(V), 0, N - 1) of the scaled offset V and the tile count N: V is shown
+        to be used only in comparisons (incl. std::min / std::max) and conversions; then the function -- helper or inline form, ?: or
+        if / early return -- is interpreted by the model interpreter with V and N as opaque inputs for every order type of V relative
+        to 0, N - 1, N and the integer limits (incl. -0.0, +-inf, NaN) x N in {1, 2, 8, 2^30}; a floating -> integer conversion
+        of a value outside the target type is an error of the run.
+ K6-float-to-int-conversion-range-guarded   every floating -> integer conversion on the way to the tile number converts either a
+        variable whose dominating guards, evaluated for every order type of the variable (relative to 0, the constants / integer
+        variables it is compared with and the integer limits; NaN and infinities included), admit only finite values inside the
+        target type, or an expression bounded by construction (std::min / std::max with values of the target range, NaN tracked per
+        [alg.min.max]).  This is the rule that finds F22 (conversion before the clamp: +inf at the south pole).
  K3-constants-agree        |earth_radius_for_epsg3857 * PI - max_coordinate_epsg3857| < 0.01 m evaluated from the literals;
         PI is pi to double precision; the radius is the WGS84 semi-major axis 6378137; MERCATOR_MAX_LAT projected with the
         canonical formula R*ln(tan(pi/4 + lat/2)) lies within half a 1e-7 degree step (6.5 cm in y) of max_coordinate, i.e. it is the
@@ -24,13 +30,13 @@ Everything is decided from the fact base; no libosmium code is run.  Instances a
 
 Not decided (numerical, left to other technique families -- DESIGN.md section 6): accuracy of the degree-10 rational
 approximation in lat_to_y against the tangent formula, strict monotonicity of the projection and of the tile numbers, the
-projection round trip, the double -> int32 conversion range at the poles / for non-finite input (static_cast<int32_t> of a
-value outside the int32 range happens BEFORE the clamp and is not covered by it), containment of finer tiles in coarser ones.
+projection round trip, containment of finer tiles in coarser ones.
 """
 import math
 
 from .. import ordertype as OT
-from ..c17_util import float_value, param_index, peel, this_field, writes
+from ..c17_util import Model, ModelAbort, ModelError, ModelThrow, ModelUnknown, float_value, param_index, peel, this_field, writes
+from ..flow import guards_of
 
 EXPLANATION = (
     'Decided: every tile number returned by mercx_to_tilex / mercy_to_tiley is the result of detail::clamp(v, 0, num_tiles_in_zoom(zoom) - 1) '
@@ -62,7 +68,7 @@ COORD = NS + 'Coordinates'
 # origin of a value is followed through casts, single-definition locals, parameters (into the caller's argument) and calls of
 # functions of the fact base that consist of one return statement (an extracted helper is seen through, as if inlined).
 
-LEAVES = (CLAMP, NUM_TILES, EXTENT, NS + 'detail::lon_to_x', NS + 'detail::lat_to_y', NS + 'lonlat_to_mercator', NS + 'mercx_to_tilex', NS + 'mercy_to_tiley')
+LEAVES = (NUM_TILES, EXTENT, NS + 'detail::lon_to_x', NS + 'detail::lat_to_y', NS + 'lonlat_to_mercator', NS + 'mercx_to_tilex', NS + 'mercy_to_tiley')
 
 
 class Ref:
@@ -141,7 +147,52 @@ def _returns(fn):
     return [n for n in fn.all_nodes() if n.get('k') == 'return' and 'sub' in n]
 
 
-# ================================================================================================ K1
+# ================================================================================================ K1 / K2
+
+def _closure(fb, fn, depth=3):
+    """fn and the functions of namespace osmium::geom it calls (transitively), each once."""
+    out, seen, work = [], set(), [(fn, 0)]
+    while work:
+        f, d = work.pop()
+        if id(f) in seen:
+            continue
+        seen.add(id(f))
+        out.append(f)
+        if d >= depth:
+            continue
+        for n in f.all_nodes():
+            if n.get('k') == 'call' and n.get('u') and n.get('q', '').startswith(NS):
+                for g in fb.by_usr.get(n['u'], []):
+                    if g.has_cfg:
+                        work.append((g, d + 1))
+    return out
+
+
+def _scaled_value_nodes(fb, fn):
+    """[(function, node)] quotients `offset / tile_extent_in_zoom(...)` in fn and the helpers it calls."""
+    out = []
+    for f in _closure(fb, fn):
+        if f.q in (EXTENT, NUM_TILES):
+            continue
+        for n in f.all_nodes():
+            if n.get('k') == 'binop' and n.get('op') == '/' and _call_of(fb, Ref(f, n['rhs']), EXTENT) is not None:
+                out.append((f, n))
+    return out
+
+
+V_REPS = lambda m: sorted({-float('inf'), -1e300, -5.5, -1.0, -0.5, -0.0, 0.0, 0.25, 1.0, 1.5, m - 0.5, float(m), m + 0.5, m + 1.0, m + 3.5,
+                           4294967295.0, 4294967296.0, 1e300, float('inf')}) + [float('nan')]
+
+
+def _clamp_ref(v, m):
+    if v != v:
+        return None          # NaN: any tile number of the range
+    if v == float('inf'):
+        return m
+    if v == -float('inf'):
+        return 0
+    return max(0, min(m, int(v)))
+
 
 def clamp_dataflow(fb, R):
     for (name, axis) in (('mercx_to_tilex', 'x'), ('mercy_to_tiley', 'y')):
@@ -151,81 +202,92 @@ def clamp_dataflow(fb, R):
         if not fns:
             R.bad('K1-tile-result-clamped', key, q, '%s not found' % q)
             R.bad('K1-tile-result-clamped', q + '#scaled-offset', q, '%s not found' % q)
+            R.bad('K2-clamp-correct', q + '#clamps-scaled-value-into-tile-range', q, '%s not found' % q)
             continue
         for fn in fns:
             if len(fn.params) != 2:
                 R.broken('%s: expected (zoom, coordinate) parameters' % fn.full)
                 continue
-            rets = _returns(fn)
-            if not rets:
-                R.bad('K1-tile-result-clamped', key, fn.site, '%s has no return value' % name)
+            # ---- the scaled offset (x + max) / extent(zoom) resp. (max - y) / extent(zoom): exactly one, in the right orientation
+            k2 = q + '#scaled-offset'
+            sv = _scaled_value_nodes(fb, fn)
+            if len(sv) != 1:
+                R.check(False, 'K1-tile-result-clamped', k2, fn.site,
+                        '%s: expected exactly one quotient <offset> / tile_extent_in_zoom(zoom) on the way to the result, found %d' % (name, len(sv)))
                 continue
-            # a conditional expression returns either operand
-            vals = []
-            for r in rets:
-                stack = [Ref(fn, r['sub'])]
-                while stack:
-                    x = xorigin(fb, stack.pop())
-                    if x is not None and x.node.get('k') == 'condop':
-                        stack.extend([x.at(x.node['then']), x.at(x.node['else'])])
-                    else:
-                        vals.append((r, x))
-            for (r, x) in vals:
-                c = x if (x is not None and x.node.get('k') == 'call' and x.node.get('q') == CLAMP) else None
-                if c is None or len(c.node.get('args', [])) != 3:
-                    R.bad('K1-tile-result-clamped', key, fn.loc(r['id']),
-                          '%s returns %s, which is not the result of detail::clamp: the tile number can leave [0, 2^zoom - 1]'
-                          % (name, x.expr()[:80] if x is not None else '?'))
+            vf, vn = sv[0]
+            ctx = {}
+            if vf is not fn:
+                calls = [n for n in fn.all_nodes() if n.get('k') == 'call' and n.get('u') and any(g is vf for g in fb.by_usr.get(n['u'], []))]
+                if len(calls) != 1 or len(calls[0].get('args', [])) != len(vf.params):
+                    R.broken('%s: the helper computing the scaled value is not called exactly once from %s' % (fn.full, name))
                     continue
-                v, lo, hi = (c.at(a) for a in c.node['args'])
-                msg = None
-                if _const(fb, lo) != 0:
-                    msg = 'the lower clamp bound is %s, required the constant 0' % lo.expr()
-                else:
-                    h = xorigin(fb, hi)
-                    if _call_of(fb, hi, NUM_TILES) is not None:
-                        msg = 'the upper clamp bound is num_tiles_in_zoom(zoom) itself: tile number 2^zoom is outside the range [0, 2^zoom - 1]'
-                    elif h is not None and h.node.get('k') == 'binop' and h.node.get('op') in ('-', '+'):
-                        nt = _call_of(fb, h.at(h.node['lhs']), NUM_TILES)
-                        k = _const(fb, h.at(h.node['rhs']))
-                        if nt is None or k is None:
-                            R.broken('%s: upper clamp bound %s not understood' % (fn.full, hi.expr()))
+                ctx = {p['d']: Ref(fn, a) for p, a in zip(vf.params, calls[0]['args'])}
+            d = Ref(vf, vn['id'], ctx, fn)
+            ext = _call_of(fb, d.at(vn['rhs']), EXTENT)
+            off = xorigin(fb, d.at(vn['lhs']))
+            msg = None
+            if off is None or off.node.get('k') != 'binop' or off.node.get('op') not in ('+', '-'):
+                R.broken('%s: scaled value %s is not (offset) / tile_extent_in_zoom(zoom)' % (fn.full, d.expr()[:80]))
+                continue
+            if len(ext.node.get('args', [])) != 1 or not _is_param(fb, ext.at(ext.node['args'][0]), 0):
+                msg = 'the tile extent is not taken for the zoom parameter'
+            else:
+                L, Rr = off.at(off.node['lhs']), off.at(off.node['rhs'])
+                l_is_max, r_is_max = _is_global(fb, L, MAXC), _is_global(fb, Rr, MAXC)
+                l_is_p, r_is_p = _is_param(fb, L, 1), _is_param(fb, Rr, 1)
+                if not ((l_is_max and r_is_p) or (l_is_p and r_is_max)):
+                    R.broken('%s: offset %s is not built from the coordinate parameter and max_coordinate_epsg3857' % (fn.full, off.expr()))
+                    continue
+                if axis == 'x' and off.node['op'] != '+':
+                    msg = 'x tiles are numbered from left to right: the offset must be x + max_coordinate, found %s' % off.expr()
+                elif axis == 'y' and not (off.node['op'] == '-' and l_is_max):
+                    msg = 'y tiles are numbered from top to bottom: the offset must be max_coordinate - y, found %s' % off.expr()
+            R.check(msg is None, 'K1-tile-result-clamped', k2, vf.loc(vn['id']), '%s: %s' % (name, msg), detail=d.expr()[:100])
+            # ---- the upper bound is computed from num_tiles_in_zoom(<zoom parameter>)
+            ntc = [(f, n) for f in _closure(fb, fn) if f.q not in (EXTENT, NUM_TILES) for n in f.all_nodes()
+                   if n.get('k') == 'call' and n.get('q') == NUM_TILES and not any(n['id'] in f.subtree(x['id']) for (g_, x) in sv if g_ is f)]
+            okn = len(ntc) >= 1
+            for (f, n) in ntc:
+                c2 = ctx if f is vf else {}
+                if f is not fn and f is not vf:
+                    okn = False
+                elif len(n.get('args', [])) != 1 or not _is_param(fb, Ref(f, n['args'][0], c2, fn), 0):
+                    okn = False
+            R.check(okn, 'K1-tile-result-clamped', key, fn.site,
+                    '%s: the tile range is not taken from num_tiles_in_zoom(<the zoom parameter>): the tile number can leave [0, 2^zoom - 1]' % name,
+                    detail='result <- clamp(scaled value, 0, num_tiles_in_zoom(zoom) - 1)')
+            if not okn:
+                continue
+            # ---- K2: case analysis of the clamp.  The scaled value V and the tile count N are given to the model interpreter as opaque
+            # inputs (node override / hook); the function is interpreted for every order type of V relative to 0, N-1, N and the
+            # limits of the integer types (representatives incl. -0.0, +-inf, NaN); the result must be clamp(trunc(V), 0, N-1) and no
+            # floating -> integer conversion may see a value outside the target type (the model raises on it).
+            kk = q + '#clamps-scaled-value-into-tile-range'
+            if not _comparison_only(fb, fn, vf, vn, ctx_calls=True):
+                R.broken('%s: the scaled value is used other than in comparisons and one conversion (the case analysis is not exhaustive)' % fn.full)
+                continue
+            bad = None
+            runs = 0
+            try:
+                for N in (1, 2, 8, 1 << 30):
+                    for v in V_REPS(N - 1):
+                        runs += 1
+                        model = Model(fb, hooks={NUM_TILES: (lambda fr, nid, n, args, N=N: N)}, node_values={(id(vf), vn['id']): v})
+                        try:
+                            r = model.call(fn, None, [5, 0.0])
+                        except ModelError as e:
+                            bad = bad or 'scaled value %r, %d tiles: %s' % (v, N, e)
                             continue
-                        if h.node['op'] != '-' or k != 1:
-                            msg = 'the upper clamp bound is num_tiles_in_zoom(zoom) %s %d, required num_tiles_in_zoom(zoom) - 1' % (h.node['op'], k)
-                        elif len(nt.node.get('args', [])) != 1 or not _is_param(fb, nt.at(nt.node['args'][0]), 0):
-                            msg = 'the upper clamp bound is not computed for the zoom parameter'
-                    else:
-                        R.broken('%s: upper clamp bound %s not understood' % (fn.full, hi.expr()))
-                        continue
-                R.check(msg is None, 'K1-tile-result-clamped', key, c.fn.loc(c.nid), '%s: %s' % (name, msg),
-                        detail='return <- clamp(v, 0, num_tiles_in_zoom(zoom) - 1)')
-                # ---- the clamped value: scaled offset in the right orientation
-                k2 = q + '#scaled-offset'
-                d = xorigin(fb, v)
-                if d is None or d.node.get('k') != 'binop' or d.node.get('op') != '/':
-                    R.broken('%s: clamped value %s is not a quotient offset / tile extent' % (fn.full, v.expr()[:80]))
-                    continue
-                ext = _call_of(fb, d.at(d.node['rhs']), EXTENT)
-                off = xorigin(fb, d.at(d.node['lhs']))
-                if ext is None or off is None or off.node.get('k') != 'binop' or off.node.get('op') not in ('+', '-'):
-                    R.broken('%s: clamped value %s is not (offset) / tile_extent_in_zoom(zoom)' % (fn.full, v.expr()[:80]))
-                    continue
-                msg = None
-                if len(ext.node.get('args', [])) != 1 or not _is_param(fb, ext.at(ext.node['args'][0]), 0):
-                    msg = 'the tile extent is not taken for the zoom parameter'
-                else:
-                    L, Rr = off.at(off.node['lhs']), off.at(off.node['rhs'])
-                    l_is_max, r_is_max = _is_global(fb, L, MAXC), _is_global(fb, Rr, MAXC)
-                    l_is_p, r_is_p = _is_param(fb, L, 1), _is_param(fb, Rr, 1)
-                    if not ((l_is_max and r_is_p) or (l_is_p and r_is_max)):
-                        R.broken('%s: offset %s is not built from the coordinate parameter and max_coordinate_epsg3857' % (fn.full, off.expr()))
-                        continue
-                    if axis == 'x' and off.node['op'] != '+':
-                        msg = 'x tiles are numbered from left to right: the offset must be x + max_coordinate, found %s' % off.expr()
-                    elif axis == 'y' and not (off.node['op'] == '-' and l_is_max):
-                        msg = 'y tiles are numbered from top to bottom: the offset must be max_coordinate - y, found %s' % off.expr()
-                R.check(msg is None, 'K1-tile-result-clamped', k2, d.fn.loc(d.nid), '%s: %s' % (name, msg), detail=v.expr()[:100])
+                        want = _clamp_ref(v, N - 1)
+                        if isinstance(r, bool) or not isinstance(r, int) or not (0 <= r <= N - 1) or (want is not None and r != want):
+                            bad = bad or 'scaled value %r with %d tiles per row gives tile %r, required %s' % (
+                                v, N, r, want if want is not None else 'a number in [0, %d]' % (N - 1))
+            except (ModelUnknown, ModelThrow, ModelAbort) as e:
+                R.broken('%s: %s' % (fn.full, e))
+                continue
+            R.check(bad is None, 'K2-clamp-correct', kk, fn.site, '%s: %s' % (name, bad),
+                    detail='%d order types of (scaled value, tile count) interpreted; result == clamp(trunc(V), 0, N - 1), no conversion out of range' % runs)
     # ---- num_tiles_in_zoom = 1 << zoom
     q = NUM_TILES
     fns = fb.fns(q)
@@ -264,60 +326,230 @@ def clamp_dataflow(fb, R):
 
 # ================================================================================================ K2
 
-class _MinMaxCompiler(OT._Compiler):
-    """The ORDERTYPE compiler plus the two comparison-only standard functions a clamp is commonly written with:
-    std::min(a, b) is `b < a ? b : a`, std::max(a, b) is `a < b ? b : a` (their definition in [alg.min.max])."""
+def _comparison_only(fb, fn, vf, vn, ctx_calls=True):
+    """The scaled value (node vn of function vf) reaches the result only through: a local it initialises, an argument of a call
+    of a function of the fact base (then the parameter carries it), comparisons, and floating -> integer conversions."""
+    work = []
+    seen = set()
 
-    def call(self, nid, n):
-        q = n.get('q')
-        args = [a for a in n.get('args', []) if a is not None]
-        if q in ('std::min', 'std::max') and len(args) == 2:
-            a, b = self.expr(args[0]), self.expr(args[1])
-            return ('ite', ('cmp', '<', b, a), b, a) if q == 'std::min' else ('ite', ('cmp', '<', a, b), b, a)
-        return OT._Compiler.call(self, nid, n)
-
-
-def clamp_correct(fb, R):
-    fns = fb.fns(CLAMP)
-    if not fns:
-        R.bad('K2-clamp-correct', CLAMP + '#within-bounds', CLAMP, '%s not found' % CLAMP)
-        R.bad('K2-clamp-correct', CLAMP + '#identity-inside', CLAMP, '%s not found' % CLAMP)
-    for fn in fns:
-        try:
-            prog = _MinMaxCompiler(fb, fn, None, False, 0, {}).compile()
-        except OT.Inexact as e:
-            R.broken('%s is not comparison-only, the order-type decision does not apply: %s' % (CLAMP, e))
-            continue
-        names = [p[0] for p in prog.params]
-        if len(names) != 3 or any(p[1] != 'i' for p in prog.params):
-            R.broken('%s: expected three integer parameters (value, min, max)' % CLAMP)
-            continue
-        v, lo, hi = names
-        nworlds = len(list(OT.program_worlds(prog)))
-
-        def within(w, o):
-            if not w.le(lo, hi):
-                return True
-            if o.kind != 'return' or o.value is None or o.value[0] != 'i':
-                return 'clamp does not return a value'
-            r = o.value[1]
-            return True if (w.le(lo, r) and w.le(r, hi)) else 'result %s outside [min, max]' % (r,)
-
-        def identity(w, o):
-            if not w.le(lo, hi) or not (w.le(lo, v) and w.le(v, hi)):
-                return True
-            if o.kind != 'return' or o.value is None or o.value[0] != 'i':
-                return 'clamp does not return a value'
-            return True if w.eq(o.value[1], v) else 'a value already inside [min, max] is changed (result %s)' % (o.value[1],)
-        for (key, pred, text) in ((CLAMP + '#within-bounds', within, 'min <= clamp(value, min, max) <= max'),
-                                  (CLAMP + '#identity-inside', identity, 'clamp(value, min, max) == value when min <= value <= max')):
-            try:
-                bad = OT.check_forall(prog, pred)
-            except OT.Inexact as e:
-                R.broken('%s: %s' % (CLAMP, e))
+    def carriers_of(f, nid):
+        pm = f.parent_map()
+        x = nid
+        hops = 0
+        while x in pm and hops < 8:
+            p = f.nodes[pm[x]]
+            hops += 1
+            k = p.get('k')
+            if k in ('wrap', 'icast') or (k == 'cast' and p.get('ck') in ('NoOp', 'FloatingToIntegral')):
+                if p.get('ck') == 'FloatingToIntegral':
+                    return True
+                x = p['id']
                 continue
-            R.check(not bad, 'K2-clamp-correct', key, fn.site, '%s does not hold: %s' % (text, '; '.join(str(b) for b in bad)),
-                    detail='decided for all %d order types of (%s, %s, %s)' % (nworlds, v, lo, hi))
+            if k == 'binop' and p.get('op') in ('<', '<=', '>', '>=', '==', '!='):
+                return True
+            if k == 'call' and p.get('q') in ('std::min', 'std::max') and x in p.get('args', []):
+                x = p['id']      # comparison-only selection: the result carries one of the operands
+                continue
+            if k == 'decl':
+                for v in p['vars']:
+                    if isinstance(v.get('init'), int) and x in f.subtree(v['init']):
+                        work.append((f, v['d']))
+                return True
+            if k == 'call' and p.get('u') and x in p.get('args', []):
+                gs = [g for g in fb.by_usr.get(p['u'], []) if g.has_cfg]
+                i = p['args'].index(x)
+                if gs and i < len(gs[0].params):
+                    work.append((gs[0], gs[0].params[i]['d']))
+                    return True
+                return False
+            if k == 'return' or k == 'condop':
+                return False        # the raw floating value would be returned / selected
+            return False
+        return False
+    if not carriers_of(vf, vn['id']):
+        return False
+    while work:
+        f, d = work.pop()
+        if (id(f), d) in seen:
+            continue
+        seen.add((id(f), d))
+        for n in f.all_nodes():
+            if n.get('k') == 'var' and n.get('d') == d:
+                if not carriers_of(f, n['id']):
+                    return False
+    return True
+
+
+# ================================================================================================ K6
+
+F2I_REPS = [float('nan'), -float('inf'), -1e300, -4294967296.5, -2147483649.0, -2147483648.0, -1.5, -1.0, -0.5, -0.0, 0.0, 0.5, 1.0, 999.5, 1000.0, 1000.5,
+            2147483647.0, 2147483648.0, 4294967295.0, 4294967295.5, 4294967296.0, 1e300, float('inf')]
+INT_REPS = {'unsigned int': (0, 1, 1000, 4294967295), 'int': (-2147483648, -1, 0, 1, 1000, 2147483647), 'unsigned long': (0, 1, 1000, 2 ** 64 - 1),
+            'long': (-2 ** 63, 0, 1000, 2 ** 63 - 1)}
+INT_RANGE = {'unsigned int': (0, 4294967295), 'int': (-2147483648, 2147483647), 'unsigned long': (0, 2 ** 64 - 1), 'long': (-2 ** 63, 2 ** 63 - 1),
+             'unsigned short': (0, 65535), 'short': (-32768, 32767), 'unsigned char': (0, 255), 'signed char': (-128, 127), 'char': (-128, 127)}
+
+
+def _feval(fn, nid, env):
+    """Concrete value of a guard expression over env {decl id: number}; None when it depends on anything else."""
+    n = fn.nodes.get(nid)
+    if n is None:
+        return None
+    k = n.get('k')
+    if k in ('wrap', 'icast', 'cast') and 'sub' in n:
+        v = _feval(fn, n['sub'], env)
+        if v is None:
+            return None
+        if n.get('ck') == 'IntegralToFloating':
+            return float(v)
+        return v
+    if k == 'lit' and 'cv' in n:
+        return float(n['cv']) if n.get('float') else int(n['cv'])
+    if k == 'var':
+        if n.get('d') in env:
+            return env[n['d']]
+        if 'cv' in n:
+            return float(n['cv']) if n.get('float') else int(n['cv'])
+        return None
+    if k == 'unop' and n.get('op') == '!':
+        v = _feval(fn, n['sub'], env)
+        return None if v is None else (not v)
+    if k == 'unop' and n.get('op') == '-':
+        v = _feval(fn, n['sub'], env)
+        return None if v is None else -v
+    if k == 'binop':
+        op = n['op']
+        a, b = _feval(fn, n['lhs'], env), _feval(fn, n['rhs'], env)
+        if op == '&&':
+            if a is False or b is False:
+                return False
+            return None if (a is None or b is None) else bool(a and b)
+        if op == '||':
+            if (a is not None and a) or (b is not None and b):
+                return True
+            return None if (a is None or b is None) else False
+        if a is None or b is None:
+            return None
+        try:
+            return {'<': a < b, '<=': a <= b, '>': a > b, '>=': a >= b, '==': a == b, '!=': a != b, '+': a + b, '-': a - b, '*': a * b}[op]
+        except KeyError:
+            return None
+    if 'cv' in n:
+        try:
+            return int(n['cv'])
+        except ValueError:
+            return None
+    return None
+
+
+def _frange(f, nid, depth=0):
+    """(lo, hi, may be NaN) of a floating expression built from constants, integer values converted to double and std::min / std::max;
+    anything else is unbounded and may be NaN."""
+    INF = float('inf')
+    n = f.nodes.get(nid)
+    if n is None or depth > 24:
+        return (-INF, INF, True)
+    k = n.get('k')
+    if k == 'wrap' and 'sub' in n:
+        return _frange(f, n['sub'], depth + 1)
+    if k == 'construct' and len(n.get('args', [])) == 1 and (n.get('elidable') or n.get('copymove')):
+        return _frange(f, n['args'][0], depth + 1)
+    if k in ('cast', 'icast') and n.get('ck') in ('NoOp', 'LValueToRValue') and 'sub' in n:
+        return _frange(f, n['sub'], depth + 1)
+    if k in ('cast', 'icast') and n.get('ck') == 'IntegralToFloating':
+        t_ = (f.nodes.get(peel(f, n['sub']), {}).get('t') or '').replace('const ', '')
+        c = f.const_value(n['sub'])
+        if c is not None:
+            return (float(c), float(c), False)
+        if t_ in INT_RANGE:
+            return (float(INT_RANGE[t_][0]), float(INT_RANGE[t_][1]), False)
+        return (-INF, INF, False)
+    if k == 'lit' and 'cv' in n:
+        try:
+            v = float(n['cv'])
+            return (v, v, v != v)
+        except ValueError:
+            return (-INF, INF, True)
+    if k == 'icast' and 'sub' in n:
+        return _frange(f, n['sub'], depth + 1)
+    if k == 'call' and n.get('q') in ('std::min', 'std::max') and len(n.get('args', [])) == 2:
+        (la, ha, na), (lb, hb, nb) = _frange(f, n['args'][0], depth + 1), _frange(f, n['args'][1], depth + 1)
+        if n['q'] == 'std::min':
+            lo, hi = min(la, lb), min(ha, hb)
+        else:
+            lo, hi = max(la, lb), max(ha, hb)
+        if nb:      # the comparison with a NaN second operand is false: the first operand is returned
+            lo, hi = min(lo, la), max(hi, ha)
+        return (lo, hi, na)
+    return (-INF, INF, True)
+
+
+def conversion_guards(fb, R):
+    """K6: every floating -> integer conversion in the tile number functions (and what they call) is executed only for values inside
+    the range of the target type: the guards that dominate it are evaluated for every order type of the converted variable (relative to
+    0, the constants and integer variables it is compared with, and the limits of the integer types; NaN and the infinities included);
+    wherever all of them hold the value must be finite and inside the range.  A conversion of anything but a plain variable has no
+    guard that could bound it."""
+    for name in ('mercx_to_tilex', 'mercy_to_tiley'):
+        q = NS + name
+        key = q + '#float-to-int-conversions-range-guarded'
+        fns = fb.fns(q)
+        if not fns:
+            R.bad('K6-float-to-int-conversion-range-guarded', key, q, '%s not found' % q)
+        for fn in fns:
+            bad = None
+            ncasts = 0
+            for f in _closure(fb, fn):
+                for c in f.all_nodes():
+                    if c.get('k') not in ('cast', 'icast') or c.get('ck') != 'FloatingToIntegral':
+                        continue
+                    ncasts += 1
+                    tgt = (c.get('t') or '').replace('const ', '')
+                    rngt = INT_RANGE.get(tgt)
+                    if rngt is None:
+                        R.broken('%s: conversion to %s not understood' % (f.full, tgt))
+                        continue
+                    on_ = f.nodes.get(peel(f, c['sub']))
+                    site = f.loc(c['id'])
+                    if on_ is None or on_.get('k') != 'var' or on_.get('vk') not in ('local', 'param') or any(w[1] == ('var', on_['d']) for w in writes(f)):
+                        lo_, hi_, nan_ = _frange(f, c['sub'])
+                        if not nan_ and rngt[0] - 1 < lo_ and hi_ < rngt[1] + 1:
+                            continue      # bounded by construction (min / max with values of the target range)
+                        bad = bad or (site, '`%s` (an expression whose value no test bounds) is converted to %s: for a value outside [%d, %d] -- +-inf at a '
+                                            'pole, > INT32_MAX far south at zoom 30 -- the conversion is undefined' % (f.expr(c['sub'])[:70], tgt, rngt[0], rngt[1]))
+                        continue
+                    dE = on_['d']
+                    guards = guards_of(f, c['id'])
+                    # integer variables the guards compare the value with
+                    others = {}
+                    for (g, _s, _b) in guards:
+                        for x in f.subtree(g):
+                            nx = f.nodes[x]
+                            if nx.get('k') == 'var' and nx.get('vk') in ('local', 'param') and nx['d'] != dE:
+                                t_ = (nx.get('t') or '').replace('const ', '')
+                                if t_ in INT_REPS:
+                                    others[nx['d']] = INT_REPS[t_]
+                    import itertools
+                    combos = [dict(zip(others, vals)) for vals in itertools.product(*others.values())] if others else [{}]
+                    for env0 in combos:
+                        reps = set(F2I_REPS)
+                        for v_ in env0.values():
+                            reps |= {v_ - 0.5, float(v_), v_ + 0.5}
+                        for v in reps:
+                            env = dict(env0)
+                            env[dE] = v
+                            holds = True
+                            for (g, sense, _b) in guards:
+                                r = _feval(f, g, env)
+                                if r is not None and bool(r) != bool(sense):
+                                    holds = False
+                                    break
+                            if holds and (v != v or v in (float('inf'), -float('inf')) or not (rngt[0] - 1 < v < rngt[1] + 1)):
+                                bad = bad or (site, '`%s` is converted to %s although the tests before the conversion let the value %r through%s: undefined '
+                                                    'behaviour (range [%d, %d])' % (on_['name'], tgt, v, (' (with %s)' % env0) if env0 else '', rngt[0], rngt[1]))
+            R.check(bad is None, 'K6-float-to-int-conversion-range-guarded', key, bad[0] if bad else fn.site, '%s: %s' % (name, bad[1] if bad else ''),
+                    detail='%d floating -> integer conversion(s) on the way to the tile number, each bounded below and above by its guards' % ncasts)
+            R.check(ncasts >= 1, 'K6-float-to-int-conversion-range-guarded', key, fn.site, '%s: no floating -> integer conversion found' % name) if bad is None and ncasts == 0 else None
 
 
 # ================================================================================================ K3
@@ -534,7 +766,7 @@ def tile_valid(fb, R):
 
 def all_rules(fb, R):
     clamp_dataflow(fb, R)
-    clamp_correct(fb, R)
+    conversion_guards(fb, R)
     constants(fb, R)
     tile_ctors(fb, R)
     tile_valid(fb, R)
@@ -548,6 +780,7 @@ def run(ctx):
         all_rules(fb, R)
     R.expect('K1-tile-result-clamped', 6)          # 2 x (result-clamped, scaled-offset) + num_tiles + tile_extent
     R.expect('K2-clamp-correct', 2)
+    R.expect('K6-float-to-int-conversion-range-guarded', 2)
     R.expect('K3-constants-agree', 4)              # pi, radius, radius*pi == max, max latitude closes the square
     R.expect('K4-tile-ctor-uses-conversions', 4)   # 3 constructors + lonlat_to_mercator
     R.expect('K5-tile-valid-predicate', 1)
@@ -557,5 +790,5 @@ def _st(fb, R):
     all_rules(fb, R)
 
 
-SELFTESTS = [(r, 'c18_tile.cpp', _st) for r in ('K1-tile-result-clamped', 'K2-clamp-correct', 'K3-constants-agree',
+SELFTESTS = [(r, 'c18_tile.cpp', _st) for r in ('K1-tile-result-clamped', 'K2-clamp-correct', 'K6-float-to-int-conversion-range-guarded', 'K3-constants-agree',
                                                   'K4-tile-ctor-uses-conversions', 'K5-tile-valid-predicate')]
